@@ -121,34 +121,8 @@ Definition nontrivial_case (inp : list Z) : bool :=
   && existsb (fun x => match x with OAlloc rq => r_bindreq rq && (2 <=? r_n rq) | _ => false end) ops
   && existsb (fun x => match x with OAlloc _ => false | _ => true end) ops.
 
-(* known shape 1 (same defect as stream "take"): a FullPCPUs Allocate returned more CPUs than
-   requested, by less than one core, nothing else is wrong before that operation, and the
-   whole observable is what the faithful model predicts *)
-Fixpoint first_bad (o : nopts) (ps : list palloc) (clean : bool) (prev : lobs)
-                   (ops : list op) (obs : list lobs) : Z :=
-  match ops, obs with
-  | x :: ops', b :: obs' =>
-    match x with
-    | OAlloc rq =>
-      if lo_ok b
-      then let c := alloc_code o rq prev b in
-           if c =? 13
-           then (if (r_bind rq =? 1) && r_bindreq rq && (Z.max 0 (r_n rq) <? lenZ (lo_cpus b))
-                    && (lenZ (lo_cpus b) <? Z.max 0 (r_n rq) + cpc (o_topo o)) then 1 else 0)
-           else if negb (c =? 0) then 0
-           else first_bad o (pods_put ps (mkP (r_uid rq) (lo_cpus b) (r_excl rq) (lo_numa b))) clean b ops' obs'
-      else first_bad o ps clean b ops' obs'
-    | ORelease uid => first_bad o (pods_del ps uid) clean b ops' obs'
-    | OUpdate p => first_bad o (pods_put ps p) false b ops' obs'
-    end
-  | _, _ => 0
-  end.
-
-Definition finding_sig (inp obs : list Z) : Z :=
-  let '(o, ops) := decode inp in
-  let '(recs, rest) := decode_many dec_lobs (length ops) obs in
-  if (ledger_code o ops recs =? 13) && eq_listZ (run_case inp) obs
-  then first_bad o [] true (first_dump o) ops recs else 0.
+(* no known finding: the FullPCPUs overshoot was fixed in 43d7136 *)
+Definition finding_sig (inp obs : list Z) : Z := 0.
 
 Require Extraction.
 Require Import ExtrOcamlBasic.
